@@ -90,6 +90,22 @@ fn check_texts(ctx: &Ctx, privt: &str, pubt: &str, expect_pk: Option<&[u8; 32]>,
             }
         }
     }
+    // own key listed in the trusted keys together with another site's key (both orders, repeated): both must be
+    // trusted, so that a second node holding the same pair is accepted
+    let other_pub = Crypto::generate_keypair(Some("second site")).1;
+    for list in [vec![pubt.to_string(), other_pub.clone()], vec![other_pub.clone(), pubt.to_string(), pubt.to_string()]] {
+        let c4 = CryptoConfig { private_key: Some(privt.to_string()), trusted_keys: list.clone(), ..Default::default() };
+        if let (Ok(Ok(c)), Some(pk)) = (catch(|| crypto_from(&c4, id)), expect_pk) {
+            let t = c.verif_trusted_keys();
+            if !t.contains(pk) || t.len() < 2 {
+                out.push(Viol::new(
+                    "own-key-listed-with-others-not-trusted",
+                    format!("{}: trusted keys {:?} configured, effective trust set has {} keys and contains the own key: {}", what, list, t.len(), t.contains(pk)),
+                    case.clone(),
+                ));
+            }
+        }
+    }
     // private -> public
     match catch(|| Crypto::public_key_from_private_key(privt)) {
         Err(p) => out.push(Viol::new(format!("pub-from-priv-{}", p.sig()), format!("{}: panicked: {}", what, p.msg), case.clone())),
